@@ -143,6 +143,13 @@ def oracle(doc, stats):
             loads["Atoms.load_cml(path)"] = Atoms.load_cml(path)
             with open(path) as fh:
                 loads["Atoms.load_cml(open file)"] = Atoms.load_cml(fh)
+            # the caller's handle stays the caller's: rewound, it can be read again (by either entry point)
+            with open(path) as fh:
+                Atoms.load(fh, filetype="cml")
+                fh.seek(0)
+                loads["Atoms.load(same open file again, rewound)"] = Atoms.load(fh, filetype="cml")
+                fh.seek(0)
+                loads["Atoms.load_cml(same open file again, rewound)"] = Atoms.load_cml(fh)
             # load_cml documents "Path or File-like object": XML is as often opened in binary mode or held in memory
             with open(path, "rb") as fh:
                 loads["Atoms.load_cml(file opened 'rb')"] = Atoms.load_cml(fh)
